@@ -112,3 +112,30 @@ def replay(lab, path):
         print("VIOLATION property=C05 replay=%s" % path)
         return 1
     return 0
+
+
+def selftest(lab):
+    """binding demonstration for Event_Trace: recorded payload lines are accepted; a wrong hex digit, a wrong length and a
+    dropped chunk of a long payload are rejected"""
+    out = os.path.join(lib.scratch(), "c05-flat.ndjson")
+    rc, so, se = lib.run_lab(lab, ["c05", "-flat", "-out", out, "-seed", "1", "-long", "3"], timeout=600)
+    rows = lib.read_ndjson(out)
+    first_total = next(i for i, r in enumerate(rows) if r["k"] == "total")
+    rows = rows[:600] + rows[next(i for i, r in enumerate(rows) if r["k"] == "chunk"):first_total + 1]
+
+    def validate(rs, tag):
+        return lib.tlc("Event_Trace", workers=1, timeout=600, extra_files={"trace.ndjson": "\n".join(json.dumps(r) for r in rs) + "\n"}, want_scn=False)
+    clean = validate(rows, "clean")
+    b1 = json.loads(json.dumps(rows))
+    k = next(i for i, r in enumerate(b1) if r["k"] == "payload" and len(r["bytes"]) == 2)
+    b1[k]["hex"] = ("0" if b1[k]["hex"][0] != "0" else "1") + b1[k]["hex"][1:]
+    r1 = validate(b1, "hex")
+    b2 = json.loads(json.dumps(rows))
+    b2[k]["length"] += 1
+    r2 = validate(b2, "len")
+    kc = next(i for i, r in enumerate(rows) if r["k"] == "chunk")
+    b3 = rows[:kc] + rows[kc + 1:]
+    r3 = validate(b3, "drop")
+    print("selftest C05: clean accepted=%s; wrong hex digit rejected=%s (line %s, expected %d); length+1 rejected=%s; dropped chunk rejected=%s" % (
+        clean.ok, not r1.ok, lib.rejected_at(r1), k + 1, not r2.ok, not r3.ok))
+    return 0 if clean.ok and not r1.ok and lib.rejected_at(r1) == k + 1 and not r2.ok and not r3.ok else 1
